@@ -95,6 +95,32 @@ fn main() {
                 }
             }
         }
+        "fuzzcase" => {
+            // pv fuzzcase <target> <artifact> [--strict]: replay a libFuzzer artifact through the same decoder.
+            // prints the violation as JSON (one line, prefixed FUZZ-VIOLATION) and exits 1, or exits 0
+            let target = args[2].clone();
+            let data = std::fs::read(&args[3]).unwrap_or_else(|e| {
+                eprintln!("INFRA: cannot read {}: {e}", args[3]);
+                std::process::exit(2)
+            });
+            let strict = args.iter().any(|a| a == "--strict");
+            let run = if strict { Run::new("FUZZ", Tier::Thorough, 1, vec![]) } else { pv::fuzzdec::tolerant_run() };
+            let _ = pv::ucd::db();
+            let res = match engine::guard(|| pv::fuzzdec::fuzz_one(&target, &data, &run)) {
+                Ok(r) => r,
+                Err(p) => Err(("C01".to_string(), Violation::new(json!({"op": "fuzz_artifact", "target": target, "bytes": data}), "no panic", format!("panic: {p}")))),
+            };
+            match res {
+                Ok(()) => {
+                    println!("fuzzcase {target}: no violation");
+                    std::process::exit(0)
+                }
+                Err((id, v)) => {
+                    println!("FUZZ-VIOLATION {}", json!({"property": id, "case": v.case, "expected": v.expected, "observed": v.observed, "target": target}));
+                    std::process::exit(1)
+                }
+            }
+        }
         "child" => {
             std::process::exit(pv::props::child(&args[2..]));
         }
@@ -136,6 +162,30 @@ fn check(id: &str, tier: Tier, seed: u64) -> i32 {
         }
     }
     run.extra("regress_replayed", json!(regress_n));
+
+    // 1b. a violation found by the coverage-guided campaign (./check thorough runs libFuzzer first)
+    if let Ok(f) = std::env::var("PV_FUZZ_VIOLATION") {
+        if let Ok(t) = std::fs::read_to_string(&f) {
+            if let Ok(v) = serde_json::from_str::<Value>(&t) {
+                let case = v.get("case").cloned().unwrap_or(Value::Null);
+                let res = match engine::guard(|| pv::props::replay(id, &run, &case)) {
+                    Ok(r) => r,
+                    Err(p) => Err(Violation::new(case.clone(), "no panic", format!("panic: {p}"))),
+                };
+                if let Err(v) = res {
+                    println!("libFuzzer artifact: expected {} observed {}", v.expected, v.observed);
+                    run.violate(v);
+                }
+            }
+        }
+    }
+    if let Ok(f) = std::env::var("PV_FUZZ_STATS") {
+        if let Ok(t) = std::fs::read_to_string(&f) {
+            if let Ok(v) = serde_json::from_str::<Value>(&t) {
+                run.extra("fuzz", v);
+            }
+        }
+    }
 
     // 2. exploration
     if !run.stopped() {
